@@ -1,0 +1,121 @@
+//go:build verif
+
+// Contracts for the deductive verifier in /verif (govc). This file contains no code: with the
+// build tag off it is not part of the package, with it on it adds nothing to the build.
+package keeper
+
+//@ import strings "strings"
+//@ import sdk "github.com/cosmos/cosmos-sdk/types"
+//@ import context "context"
+//@ import codec "github.com/cosmos/cosmos-sdk/codec"
+//@ import proto "github.com/cosmos/gogoproto/proto"
+//@ import vauthtypes "github.com/EscanBE/evermint/v12/x/vauth/types"
+
+// ---------------------------------------------------------------------------------------------
+// Abstract view. The proof store of a layer is the KV store of the module's store key seen through that layer
+// (prelude/42_cpc_store.spec); the proof of an account with address bytes a lives under vauthProofKey(a) = 0x01 ++ a:
+//     proven(l, a)   ==  kvHas[vauthStore][vauthProofKey(a)]
+//     record(l, a)   ==  kvVal[vauthStore][vauthProofKey(a)]  ==  vauthProofEnc(account, hash, signature)
+// vauthProofKey is injective (bcat_split), so distinct accounts have distinct entries and a statement about the raw
+// store "updated at exactly one key" is a statement about exactly one account.
+// ---------------------------------------------------------------------------------------------
+
+// protobuf encoding of a ProofExternalOwnedAccount record (x/vauth/types/vauth.pb.go Marshal/Unmarshal): uninterpreted,
+// injective (the decoder is its inverse).
+//@ ghost func vauthProofEnc(account string, hash string, signature string) bytes
+//@ ghost func vauthProofDecAccount(b bytes) string
+//@ ghost func vauthProofDecHash(b bytes) string
+//@ ghost func vauthProofDecSignature(b bytes) string
+//@ axiom vauth_proof_codec: forall a string, h string, s string :: vauthProofDecAccount(vauthProofEnc(a, h, s)) == a && vauthProofDecHash(vauthProofEnc(a, h, s)) == h && vauthProofDecSignature(vauthProofEnc(a, h, s)) == s && (len(a) > 0 ==> blen(vauthProofEnc(a, h, s)) > 0)
+
+// codec.ProtoCodec (cosmos-sdk v0.50.10 codec/proto_codec.go) on the vauth record type — trusted summary of gogoproto:
+// MustMarshal returns a non-nil slice ([]byte{} for an empty message) and panics only on a marshalling error (none for
+// three string fields); MustUnmarshal overwrites the target and panics on malformed input.
+//@ func (c codec.BinaryCodec) MustMarshal(o proto.Message) (bz []byte)
+//@   assumed
+//@   requires typeof(o) == type(*vauthtypes.ProofExternalOwnedAccount)
+//@   modifies nothing
+//@   ensures base(bz) != 0 && fresh(base(bz))
+//@   ensures typeof(o) == type(*vauthtypes.ProofExternalOwnedAccount) ==> bytes(bz) == vauthProofEnc(unbox(o, type(*vauthtypes.ProofExternalOwnedAccount)).Account, unbox(o, type(*vauthtypes.ProofExternalOwnedAccount)).Hash, unbox(o, type(*vauthtypes.ProofExternalOwnedAccount)).Signature)
+//@   panics never
+//@ func (c codec.BinaryCodec) MustUnmarshal(bz []byte, ptr proto.Message)
+//@   assumed
+//@   requires typeof(ptr) == type(*vauthtypes.ProofExternalOwnedAccount)
+//@   modifies unbox(ptr, type(*vauthtypes.ProofExternalOwnedAccount)).Account, unbox(ptr, type(*vauthtypes.ProofExternalOwnedAccount)).Hash, unbox(ptr, type(*vauthtypes.ProofExternalOwnedAccount)).Signature
+//@   ensures unbox(ptr, type(*vauthtypes.ProofExternalOwnedAccount)).Account == vauthProofDecAccount(bytes(bz)) && unbox(ptr, type(*vauthtypes.ProofExternalOwnedAccount)).Hash == vauthProofDecHash(bytes(bz)) && unbox(ptr, type(*vauthtypes.ProofExternalOwnedAccount)).Signature == vauthProofDecSignature(bytes(bz))
+//@   panics any
+
+// what every accepted record satisfies (the part of vauthSigBinds that holds for every address length; see finding
+// C16-len: for accounts that are not 20 bytes long the recovered address is compared with the truncated / zero-padded
+// account instead)
+//@ ghost func vauthSigChecked(account string, sig string) bool = bech32Valid(account) && vauthSigText(sig) && sigRecovers(hexDec(vauthSigHex(sig)), vauthtypes.MessageToSign) && vauthSigMatches(account, sig) && (blen(bech32Bytes(account)) == 20 ==> vauthSigBinds(account, sig))
+
+// vauthProof[layer][address bytes]: the abstract "proven" view the ante handler contracts (app/antedl/cosmoslane 993c)
+// are written over. It is a NAME for the content of the proof store: whoever uses it states the representation relation
+//     forall a :: vauthProof[l][a] == kvHas[kvId(l, store key)][vauthProofKey(a)]
+// (a definitional precondition at its entry), and HasProofExternalOwnedAccount then answers in that vocabulary too.
+//@ ghost var vauthProof map[int]map[bytes]bool
+
+//@ func (k Keeper) HasProofExternalOwnedAccount(ctx sdk.Context, accAddr sdk.AccAddress) bool
+//@   requires len(accAddr) <= 255
+//@   modifies nothing
+//@   ensures[C16.has_is_presence] result == kvHas[kvId(layer(ctx), payload(k.storeKey))][vauthProofKey(bytes(accAddr))]
+//@   ensures[C16.has_is_view] (forall a bytes :: {vauthProof[layer(ctx)][a]} vauthProof[layer(ctx)][a] == kvHas[kvId(layer(ctx), payload(k.storeKey))][vauthProofKey(a)]) ==> result == vauthProof[layer(ctx)][bytes(accAddr)]
+//@   panics never
+
+//@ func (k Keeper) GetProofExternalOwnedAccount(ctx sdk.Context, accAddr sdk.AccAddress) (p *vauthtypes.ProofExternalOwnedAccount)
+//@   requires k.cdc != nil && len(accAddr) <= 255
+//@   modifies nothing
+//@   ensures[C16.get_absent] !kvHas[kvId(layer(ctx), payload(k.storeKey))][vauthProofKey(bytes(accAddr))] ==> p == nil
+//@   ensures[C16.get_decodes] p != nil ==> (kvHas[kvId(layer(ctx), payload(k.storeKey))][vauthProofKey(bytes(accAddr))] && fresh(p) && p.Account == vauthProofDecAccount(kvVal[kvId(layer(ctx), payload(k.storeKey))][vauthProofKey(bytes(accAddr))]) && p.Hash == vauthProofDecHash(kvVal[kvId(layer(ctx), payload(k.storeKey))][vauthProofKey(bytes(accAddr))]) && p.Signature == vauthProofDecSignature(kvVal[kvId(layer(ctx), payload(k.storeKey))][vauthProofKey(bytes(accAddr))]))
+//@   panics any
+
+// The only writer of the proof store.
+//@ func (k Keeper) SaveProofExternalOwnedAccount(ctx sdk.Context, proof vauthtypes.ProofExternalOwnedAccount) (err error)
+//@   requires k.cdc != nil
+//@   modifies kvHas[kvId(layer(ctx), payload(k.storeKey))], kvVal[kvId(layer(ctx), payload(k.storeKey))]
+//@   ensures[C16.save_iff_valid] (err == nil) == vauthProofValid(proof.Account, proof.Hash, proof.Signature)
+//@   ensures[C16.save_only_checked] err == nil ==> vauthSigChecked(proof.Account, proof.Signature)
+//@   ensures[C16.save_effect] err == nil ==> (kvHas[kvId(layer(ctx), payload(k.storeKey))] == old(kvHas[kvId(layer(ctx), payload(k.storeKey))])[vauthProofKey(bech32Bytes(proof.Account)) := true] && kvVal[kvId(layer(ctx), payload(k.storeKey))] == old(kvVal[kvId(layer(ctx), payload(k.storeKey))])[vauthProofKey(bech32Bytes(proof.Account)) := vauthProofEnc(proof.Account, proof.Hash, proof.Signature)])
+//@   ensures[C16.save_reject_clean] err != nil ==> (kvHas[kvId(layer(ctx), payload(k.storeKey))] == old(kvHas[kvId(layer(ctx), payload(k.storeKey))]) && kvVal[kvId(layer(ctx), payload(k.storeKey))] == old(kvVal[kvId(layer(ctx), payload(k.storeKey))]))
+//@   panics[C16.save_panics] only_if blen(vauthProofEnc(proof.Account, proof.Hash, proof.Signature)) > 2147483647
+
+// ---------------------------------------------------------------------------------------------
+// msg_server_submit_proof_external_owned_account.go  (C16)
+// A proof is stored only for a message that passed ValidateBasic (submitter != account, signature checked for the
+// account over MessageToSign), only when no proof existed, together with exactly one fee of 10^18 of the EVM denomination
+// moved from the submitter to the module account and burnt. Every error return leaves the proof store and the supply
+// untouched; all error returns but one precede the first bank call — the exception (BurnCoins failing after the transfer
+// succeeded) and the panic after the burn (SaveProof... rejecting an upper-case signature, which the message's own
+// ValidateBasic lets through) are undone by the transaction envelope (baseapp.runTx discards the cache layer):
+// "atomicity by envelope, not by function" (DESIGN.md §7 C16).
+// ---------------------------------------------------------------------------------------------
+//@ ghost func vauthFee() int = 1000000000000000000
+
+//@ func (m msgServer) SubmitProofExternalOwnedAccount(goCtx context.Context, msg *vauthtypes.MsgSubmitProofExternalOwnedAccount) (res *vauthtypes.MsgSubmitProofExternalOwnedAccountResponse, err error)
+//@   requires typeof(goCtx) == type(sdk.Context) && msg != nil
+//@   requires m.Keeper.cdc != nil && m.Keeper.bankKeeper != nil
+//@   modifies kvHas[kvId(layer(unbox(goCtx, type(sdk.Context))), payload(m.Keeper.storeKey))], kvVal[kvId(layer(unbox(goCtx, type(sdk.Context))), payload(m.Keeper.storeKey))], bankBal[layer(unbox(goCtx, type(sdk.Context)))], bankSupply[layer(unbox(goCtx, type(sdk.Context)))], authVersion[layer(unbox(goCtx, type(sdk.Context)))], evlog[payload(unbox(goCtx, type(sdk.Context)).EventManager())]
+//@   ensures[C16.submit_requires_valid_msg] err == nil ==> (vauthMsgValid(msg.Submitter, msg.Account, msg.Signature) && vauthSigChecked(msg.Account, msg.Signature))
+//@   ensures[C16.submit_no_overwrite] err == nil ==> !old(kvHas[kvId(layer(unbox(goCtx, type(sdk.Context))), payload(m.Keeper.storeKey))][vauthProofKey(bech32Bytes(msg.Account))])
+//@   ensures[C16.submit_stored] err == nil ==> (kvHas[kvId(layer(unbox(goCtx, type(sdk.Context))), payload(m.Keeper.storeKey))] == old(kvHas[kvId(layer(unbox(goCtx, type(sdk.Context))), payload(m.Keeper.storeKey))])[vauthProofKey(bech32Bytes(msg.Account)) := true] && kvVal[kvId(layer(unbox(goCtx, type(sdk.Context))), payload(m.Keeper.storeKey))] == old(kvVal[kvId(layer(unbox(goCtx, type(sdk.Context))), payload(m.Keeper.storeKey))])[vauthProofKey(bech32Bytes(msg.Account)) := vauthProofEnc(msg.Account, strcat("0x", hexEnc(keccak256(strBytes(vauthtypes.MessageToSign)))), msg.Signature)])
+//@   ensures[C16.submit_fee_charged] err == nil ==> (forall a bytes, d string :: bankBal[layer(unbox(goCtx, type(sdk.Context)))][a][d] == old(bankBal[layer(unbox(goCtx, type(sdk.Context)))][a][d]) - ((a == bech32Bytes(msg.Submitter) && d == evmDenomOf[layer(unbox(goCtx, type(sdk.Context)))]) ? vauthFee() : 0))
+//@   ensures[C16.submit_fee_burnt] err == nil ==> (forall d string :: bankSupply[layer(unbox(goCtx, type(sdk.Context)))][d] == old(bankSupply[layer(unbox(goCtx, type(sdk.Context)))][d]) - (d == evmDenomOf[layer(unbox(goCtx, type(sdk.Context)))] ? vauthFee() : 0))
+//@   ensures[C16.submit_fee_affordable] err == nil ==> old(bankBal[layer(unbox(goCtx, type(sdk.Context)))][bech32Bytes(msg.Submitter)][evmDenomOf[layer(unbox(goCtx, type(sdk.Context)))]]) >= vauthFee()
+//@   ensures[C16.reject_stores_nothing] err != nil ==> (kvHas[kvId(layer(unbox(goCtx, type(sdk.Context))), payload(m.Keeper.storeKey))] == old(kvHas[kvId(layer(unbox(goCtx, type(sdk.Context))), payload(m.Keeper.storeKey))]) && kvVal[kvId(layer(unbox(goCtx, type(sdk.Context))), payload(m.Keeper.storeKey))] == old(kvVal[kvId(layer(unbox(goCtx, type(sdk.Context))), payload(m.Keeper.storeKey))]))
+//@   ensures[C16.reject_burns_nothing] err != nil ==> bankSupply[layer(unbox(goCtx, type(sdk.Context)))] == old(bankSupply[layer(unbox(goCtx, type(sdk.Context)))])
+//@   ensures[C16.reject_charges_nothing_or_envelope] err != nil ==> (bankBal[layer(unbox(goCtx, type(sdk.Context)))] == old(bankBal[layer(unbox(goCtx, type(sdk.Context)))]) || (forall a bytes, d string :: bankBal[layer(unbox(goCtx, type(sdk.Context)))][a][d] == old(bankBal[layer(unbox(goCtx, type(sdk.Context)))][a][d]) - ((a == bech32Bytes(msg.Submitter) && d == evmDenomOf[layer(unbox(goCtx, type(sdk.Context)))]) ? vauthFee() : 0) + ((a == moduleAddr(vauthtypes.ModuleName) && d == evmDenomOf[layer(unbox(goCtx, type(sdk.Context)))]) ? vauthFee() : 0)))
+//@   ensures[C16.reject_before_bank_on_validation] (!vauthMsgValid(msg.Submitter, msg.Account, msg.Signature) || old(kvHas[kvId(layer(unbox(goCtx, type(sdk.Context))), payload(m.Keeper.storeKey))][vauthProofKey(bech32Bytes(msg.Account))])) ==> (err != nil && bankBal[layer(unbox(goCtx, type(sdk.Context)))] == old(bankBal[layer(unbox(goCtx, type(sdk.Context)))]))
+//@   panics[C16.submit_panics] only_if !modExists(vauthtypes.ModuleName) || !modCanBurn(vauthtypes.ModuleName) || !denomValid(evmDenomOf[layer(unbox(goCtx, type(sdk.Context)))]) || strings.ToLower(msg.Signature) != msg.Signature || blen(vauthProofEnc(msg.Account, strcat("0x", hexEnc(keccak256(strBytes(vauthtypes.MessageToSign)))), msg.Signature)) > 2147483647
+
+// ---------------------------------------------------------------------------------------------
+// grpc_query.go — the query server only reads: together with Has/Get (modifies nothing) this makes
+// SaveProofExternalOwnedAccount the only function of the package that writes the proof store, and
+// SubmitProofExternalOwnedAccount its only caller.
+// ---------------------------------------------------------------------------------------------
+//@ func (q queryServer) ProofExternalOwnedAccount(goCtx context.Context, req *vauthtypes.QueryProofExternalOwnedAccountRequest) (res *vauthtypes.QueryProofExternalOwnedAccountResponse, err error)
+//@   requires typeof(goCtx) == type(sdk.Context) && q.Keeper.cdc != nil
+//@   modifies nothing
+//@   ensures[C16.query_reports_store] (err == nil && bech32Valid(req.Account)) ==> (res != nil && kvHas[kvId(layer(unbox(goCtx, type(sdk.Context))), payload(q.Keeper.storeKey))][vauthProofKey(bech32Bytes(req.Account))] && res.Proof.Signature == vauthProofDecSignature(kvVal[kvId(layer(unbox(goCtx, type(sdk.Context))), payload(q.Keeper.storeKey))][vauthProofKey(bech32Bytes(req.Account))]) && res.Proof.Account == vauthProofDecAccount(kvVal[kvId(layer(unbox(goCtx, type(sdk.Context))), payload(q.Keeper.storeKey))][vauthProofKey(bech32Bytes(req.Account))]))
+//@   ensures[C16.query_absent] (bech32Valid(req.Account) && !kvHas[kvId(layer(unbox(goCtx, type(sdk.Context))), payload(q.Keeper.storeKey))][vauthProofKey(bech32Bytes(req.Account))]) ==> err != nil
+//@   panics any
